@@ -95,27 +95,41 @@ func (g hostileGen) line(pct int, have []string) string {
 			b.WriteString(` opts "` + strings.Join(os, " ") + `"`)
 		}
 	case k < 8:
-		b.WriteString("route del " + r.Pick([]string{"svc-a", "svc-b", "svc-c"}))
-		if r.Chance(1, 2) {
-			s := g.src(pct)
-			if len(have) > 0 && r.Chance(1, 2) {
-				s = r.Pick(have)
+		// aim at a route AND a service that exist most of the time: the three-argument form only reaches the
+		// target comparison (and whatever the dst went through before it) for a target of that service
+		svc := r.Pick([]string{"svc-a", "svc-b", "svc-c"})
+		s := g.src(pct)
+		if len(have) > 0 && r.Chance(2, 3) {
+			h := r.Pick(have)
+			if i := strings.IndexByte(h, '\x01'); i >= 0 {
+				svc, s = h[:i], h[i+1:]
 			}
+		}
+		b.WriteString("route del " + svc)
+		if r.Chance(2, 3) {
 			b.WriteString(" " + s)
-			if r.Chance(1, 2) {
-				b.WriteString(" " + g.pick(hostileURLs, plainURLs, pct))
+			if r.Chance(2, 3) {
+				hp := pct
+				if hp < 50 {
+					hp = 50
+				}
+				b.WriteString(" " + g.pick(hostileURLs, plainURLs, hp))
 			}
 		} else if r.Chance(1, 2) {
 			b.WriteString(` tags "` + g.pick(hostileTags, []string{"a", "b"}, pct) + `"`)
 		}
 	default:
 		s := g.src(pct)
+		svc := r.Pick([]string{"svc-a", "svc-b", "svc-c"})
 		if len(have) > 0 && r.Chance(4, 5) {
-			s = r.Pick(have)
+			h := r.Pick(have)
+			if i := strings.IndexByte(h, '\x01'); i >= 0 {
+				svc, s = h[:i], h[i+1:]
+			}
 		}
 		b.WriteString("route weight ")
 		if r.Chance(2, 3) {
-			b.WriteString(r.Pick([]string{"svc-a", "svc-b", "svc-c"}) + " ")
+			b.WriteString(svc + " ")
 		}
 		b.WriteString(s + " weight " + g.pick(hostileWeights, []string{"0.1", "0.5", "1", "0"}, pct+30))
 		if r.Chance(1, 3) {
@@ -125,11 +139,11 @@ func (g hostileGen) line(pct int, have []string) string {
 	return b.String()
 }
 
-// srcOf extracts the <src> token of a "route add" line (for later del/weight commands to aim at).
+// srcOf extracts "<service>\x01<src>" of a "route add" line (for later del/weight commands to aim at).
 func srcOf(line string) string {
 	f := strings.Fields(line)
 	if len(f) >= 5 && f[0] == "route" && f[1] == "add" {
-		return f[3]
+		return f[2] + "\x01" + f[3]
 	}
 	return ""
 }
